@@ -356,7 +356,18 @@ class UploadSeekableInputManager(UploadFilenameInputManager):
         # points to the same OS filehandle which causes concurrency
         # issues). So instead we need to read from the fileobj and
         # chunk the data out to separate file-like objects in memory.
-        data = fileobj.read(kwargs['part_size'])
+        # A single read() may return fewer bytes than requested before the
+        # end of the stream, and the number of parts was fixed from the
+        # stream's size, so keep reading until the part is full.
+        chunks = []
+        remaining = kwargs['part_size']
+        while remaining > 0:
+            chunk = fileobj.read(remaining)
+            if not chunk:
+                break
+            chunks.append(chunk)
+            remaining -= len(chunk)
+        data = b''.join(chunks)
         # We return the length of the data instead of the full_file_size
         # because we partitioned the data into separate BytesIO objects
         # meaning the BytesIO object has no knowledge of its start position
